@@ -355,6 +355,11 @@ class Unit:
                     raise ExtractError('@droptail: no statement end after anchor')
                 txt = txt[:semi + 1] + '\n        vf_dropped_tail()\n    ' + txt[bc:]
                 notes.add('DROPTAIL', 'body after `%s` dropped (not under contract): %s' % (anc, ' '.join(lines).strip()))
+        emit_name = s.opt('rename') or fn
+        if s.opt('rename'):
+            # the real text is verified under another name (a shim of the original name carries the contract other functions use)
+            txt = re.sub(r'\bfn\s+' + re.escape(fn) + r'\b', 'fn ' + emit_name, txt, count=1)
+            notes.add('W', 'function emitted under the name %s' % emit_name)
         rewritten = txt
         assumed = s.opt('assumed_from')
         if assumed:
@@ -369,11 +374,6 @@ class Unit:
             txt = '#[verifier::external_body]\n' + txt[:bo] + '{ unimplemented!() /* body verified in unit %s */ }' % assumed
         else:
             txt, has_contract = weave(txt, s, notes, canary)
-        emit_name = s.opt('rename') or fn
-        if s.opt('rename'):
-            # the real text is verified under another name (a shim of the original name carries the contract other functions use)
-            txt = re.sub(r'\bfn\s+' + re.escape(fn) + r'\b', 'fn ' + emit_name, txt, count=1)
-            notes.add('W', 'function emitted under the name %s' % emit_name)
         if canary:
             # a renamed COPY of the function with `ensures false` appended: it must fail to verify
             txt = re.sub(r'\bfn\s+' + re.escape(emit_name) + r'\b', 'fn ' + emit_name + '__canary', txt, count=1)
@@ -666,6 +666,27 @@ def _closures(mask, a, b):
     return res
 
 
+def _locate(txt, anc, nth, start, notes, what):
+    """position of the nth occurrence of anchor text; if the exact text is gone and the anchor is a call `..name(args..`,
+    fall back to the call prefix up to its first `(` when that prefix occurs exactly once (renamed / changed arguments
+    must not lose the hint: the hint is what lets a changed argument FAIL its gate instead of leaving it undecided)"""
+    pos = -1
+    st = start
+    for _ in range(nth):
+        pos = txt.find(anc, st)
+        if pos < 0:
+            break
+        st = pos + 1
+    if pos >= 0:
+        return pos
+    if '(' in anc and nth == 1:
+        pre = anc[:anc.index('(') + 1]
+        if len(pre) >= 6 and txt.count(pre, start) == 1:
+            notes.add('ANCHOR-RELAXED', '%s `%s` matched by its call prefix `%s`' % (what, anc, pre))
+            return txt.find(pre, start)
+    return -1
+
+
 def weave(txt, s, notes, canary=False):
     """insert the contract text of section s into the (already rewritten) fn text"""
     ret = s.opt('ret')
@@ -713,13 +734,7 @@ def weave(txt, s, notes, canary=False):
         elif name == 'wrap':
             # `EXPR` -> `{ let w__ = EXPR; proof { BODY } w__ }`  (pure insertion around the expression; BODY may mention w__)
             anc = _anchor(arg)
-            pos = -1
-            start = body_open
-            for _ in range(nth):
-                pos = txt.find(anc, start)
-                if pos < 0:
-                    break
-                start = pos + 1
+            pos = _locate(txt, anc, nth, body_open, notes, '@' + name)
             if pos < 0:
                 notes.add('LOST-ANCHOR', '@wrap `%s`' % anc)
                 continue
@@ -727,13 +742,7 @@ def weave(txt, s, notes, canary=False):
             inserts.append((pos + len(anc), '; proof { ' + ' '.join(body.split()) + ' } w__ }'))
         elif name == 'before_stmt':
             anc = _anchor(arg)
-            pos = -1
-            start = body_open
-            for _ in range(nth):
-                pos = txt.find(anc, start)
-                if pos < 0:
-                    break
-                start = pos + 1
+            pos = _locate(txt, anc, nth, body_open, notes, '@' + name)
             if pos < 0:
                 notes.add('LOST-ANCHOR', '@before_stmt `%s`' % anc)
                 continue
@@ -764,13 +773,7 @@ def weave(txt, s, notes, canary=False):
             inserts.append((j + 1, '\n' + body + '\n'))
         elif name in ('before', 'after'):
             anc = _anchor(arg)
-            pos = -1
-            start = body_open
-            for _ in range(nth):
-                pos = txt.find(anc, start)
-                if pos < 0:
-                    break
-                start = pos + 1
+            pos = _locate(txt, anc, nth, body_open, notes, '@' + name)
             if pos < 0:
                 # a proof hint lost its anchor (the code changed shape): weave without it and let the verifier decide;
                 # check.py turns hint-dependent failures (asserts / loop invariants) of such a function into UNDECIDED
